@@ -127,7 +127,7 @@ class UpdateVectorIdxs(Contract):
 
 class _IdxLoop(LoopContract):
     qualname = HVQ + "._initialize"
-    tags = ("C09", "C19")
+    tags = ("C09", "C19", "C10")
     attr = None
 
     def snapshot(self, I, fr, seq):
@@ -171,7 +171,9 @@ class InitProcLoop(_IdxLoop):
 class Initialize(Contract):
     global_writes_allowed = (HVQ,)
     qualname = HVQ + "._initialize"
-    tags = {"": ("C09", "C19", "C01", "C08")}
+    # the installed name -> column maps are what every later step() looks names up in: a stale map makes a member of
+    # the action space raise KeyError (C10)
+    tags = {"": ("C09", "C19", "C01", "C08", "C10")}
 
     def setup(self, I, variant):
         sig = V.Sigma(concrete=I.ext_state.get("concrete"))
@@ -469,7 +471,7 @@ class Tensorize(Contract):
 class GenerateInitialState(Contract):
     global_writes_allowed = (HVQ,)
     qualname = "nasim.envs.state.State.generate_initial_state"
-    tags = {"": ("C09", "C04", "C19", "C01")}
+    tags = {"": ("C09", "C04", "C19", "C01", "C10")}
 
     def setup(self, I, variant):
         sig = V.Sigma(concrete=I.ext_state.get("concrete"))
